@@ -29,18 +29,27 @@ func (Prop) Configs(tier string) []string {
 }
 
 func (Prop) Rule() string {
-	return "E4 on 20 operations (sm2.GenerateKey, sm2.SignASN1, PrivateKey.Sign(GM opts), sm2.Encrypt, sm2.EncryptASN1, sm2 KeyExchange Init/Repond, " +
-		"ecdh.P256().GenerateKey, SM2 sign/encrypt over NIST P-256 (legacy randFieldElement path), sm9.GenerateSignMasterKey/GenerateEncryptMasterKey, " +
-		"sm9.Sign, SignPrivateKey.Sign(ASN.1), sm9.WrapKey, sm9.Encrypt XOR and SM4-CBC (extra 16-byte IV read), sm9 key exchange Init/Respond). " +
-		"CONTENT: every stream of <=3 32-byte blocks over {0,1,n-2,n-1,n,n+1,2^256-1,two mid-range values} plus their images under byte[1]^=0x42 (18 values per group order), " +
+	var full, light []string
+	for _, o := range allOps() {
+		if o.light {
+			light = append(light, o.name)
+		} else {
+			full = append(full, o.name)
+		}
+	}
+	return fmt.Sprintf("E4 on %d operations on the real library with a scripted io.Reader. Full treatment: %s; API variants (content+fault+cross, no same-operation sequences): %s. ",
+		len(full)+len(light), strings.Join(full, ", "), strings.Join(light, ", ")) +
+		"CONTENT: every stream of <=3 32-byte blocks over {0,1,n-2,n-1,n,n+1,2^256-1,two mid-range values} plus their images under byte[1]^=0x42 (18 values per group order: SM2 n, SM9 N, NIST P-256 n for the legacy path), " +
 		"each stream = rejected blocks followed by one acceptable block, followed by three fixed tail blocks; oracle: the complete output of the operation equals the output " +
 		"recomputed by the reference from exactly the first acceptable block (range [1,n-1], [1,n-2] for key generation; standard retry rules r=0, r+k=n, s=0, t=0, l=0 evaluated by the reference), " +
-		"for SM2 signatures additionally k=s(1+d)+rd; block-lane bytes consumed == 32*(rejections+1) (+16 for the CBC IV which must be the next 16 stream bytes); number and size of reads; " +
+		"for SM2 signatures additionally k=s(1+d)+rd; block-lane bytes consumed == 32*(rejections+1) (+16 for the IV of the SM9 block modes, which must be the next 16 stream bytes; " +
+		"16 bytes before the scalar for the enveloped-key SM4 key); exact sequence of read sizes; " +
 		"for ecdh/SM9-master key generation the key equals block XOR m where m has at most one non-zero byte (m is measured once per process from one run and then held fixed). " +
-		"SEQUENCES: the same operation twice on one reader for every pair of streams with <=1 rejection each, and every ordered pair of different operations on one reader " +
-		"(no rejection / one rejection each): the second operation must use the next acceptable block after the bytes the first one consumed. " +
-		"FAULTS: for every stream above and every read index k the fault-free run makes, answers {error, EOF, half block then EOF}: error returned, every other result nil/empty, no panic; " +
-		"answers {(0,nil) once, legal short read}: output and consumption identical to the fault-free run. " +
+		"SEQUENCES: the same operation twice on one reader for every pair of streams with <=1 rejection each (quick tier: second stream's last block from the nine base values), and every ordered pair of operations on one reader " +
+		"(no rejection / one rejection each / rejection only in the second): the second operation must use the next acceptable block after the bytes the first one consumed. " +
+		"FAULTS: for every content stream and every read index k the fault-free run makes, answers {error, EOF, half block then EOF}: error returned, every other result nil/empty, no panic; " +
+		"answers {(0,nil) once, legal short read}: output and consumption identical to the fault-free run (quick tier: streams of <=2 blocks only); " +
+		"thorough tier adds two deviations for streams of <=2 blocks: a short answer at call c1 and any of the five answers at a later call c2 (error required iff call c2 was made and is a fault). " +
 		"distinct_nontrivial counts distinct (operation, stream-label-sequence) and (operation, fault kind, read index) classes."
 }
 
@@ -52,6 +61,7 @@ func (Prop) Assumptions() []string {
 		"the XOR constant/position of ecdh and SM9 master key generation is not fixed by the property; it is measured (documented: 0x42 at byte 1) and required to be a single-byte constant that never changes",
 		"one-byte reads are served from a separate lane (randutil.MaybeReadByte coin flip); by code reading this is the only 1-byte read of the covered operations, at most one such read per operation is tolerated",
 		"fault answers are single deviations (one non-default answer per run); streams are bounded to 3 content blocks; uniformity itself is not measured, only exact use of the sampled block",
+		"sm2.sign.legacy-p256 is skipped in c-purego: with -tags purego on amd64 the Go 1.23 standard library's elliptic.P256().Inverse panics ('nistec rejected normalized scalar') for every input, before any sampling question arises",
 		"legacy curves whose order is not a multiple of 8 bits (P-224, P-521: top-bit masking) are outside the property's 32-byte statement and are not covered; only NIST P-256 is run through the legacy path",
 		"dispatch tiers c-default and c-purego on amd64; arm64/ppc64le/s390x assembly is not covered",
 	}
@@ -149,11 +159,15 @@ type opDef struct {
 	hiOff  int64 // acceptable range is [1, n-hiOff]
 	either bool  // n-1 is a don't-care value (only with hiOff == 2)
 	masked bool  // key generation with the fixed-byte XOR
-	extra  int   // number of additional block-lane reads after the scalar (CBC IV)
+	light  bool  // API variant of another operation: content+fault and cross cases only, no same-operation sequences
+	pre    []byte // fixed bytes the operation reads BEFORE it samples the scalar (enveloped key: the 16-byte SM4 key)
+	preReads   []int // sizes of the reads that consume pre
+	extraReads []int // sizes of the reads after the scalar (IV)
 	run    func(rd io.Reader) obs
-	// expect recomputes the canonical output from scalar v; rest = stream bytes following the accepted block;
-	// extra = further stream bytes the operation must consume; ok=false: the standard says "draw another scalar".
-	expect func(v *big.Int, rest []byte) (exp []byte, extra int, ok bool)
+	// expect recomputes the canonical output from scalar v; pre = the bytes read before sampling, rest = stream bytes
+	// following the accepted block; extra = further stream bytes the operation must consume; ok=false: the standard
+	// says "draw another scalar".
+	expect func(v *big.Int, pre, rest []byte) (exp []byte, extra int, ok bool)
 	// recoverScalar extracts the scalar from the output where that is algebraically possible (diagnostics + sign oracle).
 	recoverScalar func(out []byte) *big.Int
 
@@ -199,7 +213,7 @@ func (o *opDef) getMask(t *engine.T) ([]byte, bool) {
 	}
 	if !o.maskDone {
 		o.maskDone = true
-		stream := concat(midA, tails[0], tails[1], tails[2])
+		stream := concat(o.pre, midA, tails[0], tails[1], tails[2])
 		rd := engine.NewScriptReader(stream)
 		ob, p := safeRun(t, o.name, o, rd)
 		t.Eval(1)
@@ -241,6 +255,11 @@ type cand struct {
 // walk evaluates the property's sampling rule on the byte stream starting at pos: the candidates are the legal
 // (accepted block, output) pairs — exactly one unless a don't-care value is met.
 func (o *opDef) walk(stream []byte, pos int, mask []byte) (cs []cand, definite bool) {
+	if pos+len(o.pre) > len(stream) {
+		return nil, false
+	}
+	pre := stream[pos : pos+len(o.pre)]
+	pos += len(o.pre)
 	for i := 0; pos+32 <= len(stream); i++ {
 		v := new(big.Int).SetBytes(xorBytes(stream[pos:pos+32], mask))
 		pos += 32
@@ -248,7 +267,7 @@ func (o *opDef) walk(stream []byte, pos int, mask []byte) (cs []cand, definite b
 		if cl == clsRej {
 			continue
 		}
-		exp, extra, ok := o.expect(v, stream[pos:])
+		exp, extra, ok := o.expect(v, pre, stream[pos:])
 		if !ok {
 			continue
 		}
@@ -277,6 +296,11 @@ func (o *opDef) diagnose(stream []byte, mask []byte, out []byte) string {
 		}
 	}
 	top := new(big.Int).Lsh(big.NewInt(1), 255)
+	if len(stream) < len(o.pre) {
+		return strings.Join(msgs, "; ")
+	}
+	pre := stream[:len(o.pre)]
+	stream = stream[len(o.pre):]
 	for i := 0; (i+1)*32 <= len(stream) && i < 8; i++ {
 		raw := new(big.Int).SetBytes(stream[i*32 : (i+1)*32])
 		variants := []struct {
@@ -295,7 +319,7 @@ func (o *opDef) diagnose(stream []byte, mask []byte, out []byte) string {
 			if va.v.Sign() <= 0 || va.v.Cmp(o.g.n) >= 0 {
 				continue
 			}
-			exp, _, ok := o.expect(va.v, stream[(i+1)*32:])
+			exp, _, ok := o.expect(va.v, pre, stream[(i+1)*32:])
 			if ok && bytes.Equal(exp, out) {
 				msgs = append(msgs, fmt.Sprintf("output is reproduced by scalar = %s #%d of the stream", va.n, i))
 				return strings.Join(msgs, "; ")
@@ -359,7 +383,7 @@ func runSeq(t *engine.T, ops []*opDef, stream []byte, label string) []seqResult 
 			}
 			want := cs[len(cs)-1]
 			t.Fail(key, "%s starting at stream offset %d: expected the output computed from block #%d (value %064x) = %s, observed %s; %s",
-				where, pos, want.idx, want.v, engine.Hex(want.exp), engine.Hex(ob.out), o.diagnose(stream, mask, ob.out))
+				where, pos, want.idx, want.v, engine.Hex(want.exp), engine.Hex(ob.out), o.diagnose(stream[pos:], mask, ob.out))
 			return res
 		}
 		if o.recoverScalar != nil {
@@ -373,18 +397,17 @@ func runSeq(t *engine.T, ops []*opDef, stream []byte, label string) []seqResult 
 			if j > 0 {
 				key = o.name + "/seq/consumed-bytes"
 			}
-			t.Fail(key, "%s: block-lane bytes consumed up to here = %d, want %d (start %d, accepted block #%d, extra %d)", where, rd.Consumed, hit.end, pos, hit.idx, o.extra)
+			t.Fail(key, "%s: block-lane bytes consumed up to here = %d, want %d (start %d, %d bytes before sampling, accepted block #%d, reads after it %v)", where, rd.Consumed, hit.end, pos, len(o.pre), hit.idx, o.extraReads)
 			return res
 		}
 		calls := rd.Calls - calls0
-		shapeOK := calls == hit.idx+1+o.extra && rd.OneByte-one0 <= 1
-		for i, l := range rd.Log[log0:] {
-			if i <= hit.idx && l != 32 {
-				shapeOK = false
-			}
+		wantLog := append([]int{}, o.preReads...)
+		for i := 0; i <= hit.idx; i++ {
+			wantLog = append(wantLog, 32)
 		}
-		if !shapeOK {
-			t.Fail(o.name+"/read-shape", "%s: read requests %v, one-byte reads %d; want %d reads of 32 bytes (+%d extra)", where, rd.Log[log0:], rd.OneByte-one0, hit.idx+1, o.extra)
+		wantLog = append(wantLog, o.extraReads...)
+		if fmt.Sprint(wantLog) != fmt.Sprint(rd.Log[log0:]) || rd.OneByte-one0 > 1 {
+			t.Fail(o.name+"/read-shape", "%s: read requests %v, one-byte reads %d; want requests %v and at most one 1-byte read", where, rd.Log[log0:], rd.OneByte-one0, wantLog)
 			return res
 		}
 		t.Outcome(fmt.Sprintf("%s/accepted-block=%d", o.name, hit.idx))
@@ -446,6 +469,57 @@ func faults(t *engine.T, o *opDef, stream []byte, label string, ff seqResult, be
 			}
 			if !bytes.Equal(ob.out, ff.out) || rd.Consumed != ff.end {
 				t.Fail(o.name+"/short-read@k/output-differs", "%s: output %s (consumed %d) differs from the fault-free output %s (consumed %d)", where, engine.Hex(ob.out), rd.Consumed, engine.Hex(ff.out), ff.end)
+			}
+		}
+	}
+}
+
+// faults2 enumerates two deviations: a legal short answer ((0,nil) or half a request) at call c1 followed by a
+// fault or another short answer at a later call c2. Call indices shift after a short read, so the space is the
+// call-index space of the reader; the oracle looks at whether call c2 was actually made.
+func faults2(t *engine.T, o *opDef, stream []byte, label string, ff seqResult) {
+	type ans struct {
+		ans   int
+		name  string
+		fault bool
+	}
+	var second []ans
+	for _, a := range faultAnswers {
+		second = append(second, ans{a.ans, a.name, true})
+	}
+	for _, a := range benignAnswers {
+		second = append(second, ans{a.ans, a.name, false})
+	}
+	maxCall := ff.calls + 1
+	for c1 := 0; c1 < maxCall; c1++ {
+		for _, a1 := range benignAnswers {
+			for c2 := c1 + 1; c2 <= maxCall; c2++ {
+				for _, a2 := range second {
+					rd := engine.NewScriptReader(stream)
+					rd.Fault = map[int]int{c1: a1.ans, c2: a2.ans}
+					ob, panicked := safeRun(t, o.name+"/fault-after-short-read@k", o, rd)
+					t.Eval(1)
+					t.Nontrivial(fmt.Sprintf("%s/fault2/%s@%d/%s@%d", o.name, a1.name, c1, a2.name, c2))
+					if panicked {
+						continue
+					}
+					where := fmt.Sprintf("%s on stream [%s], call #%d answered with %s and call #%d with %s (calls made: %d)", o.name, label, c1, a1.name, c2, a2.name, rd.Calls)
+					if a2.fault && rd.Calls > c2 {
+						if ob.err == nil {
+							t.Fail(o.name+"/fault-after-short-read@k/no-error", "%s: no error returned (output %s %s)", where, engine.Hex(ob.out), ob.bad)
+						} else if ob.leak != "" {
+							t.Fail(o.name+"/fault-after-short-read@k/output-with-error", "%s: error %v returned together with %s", where, ob.err, ob.leak)
+						}
+						continue
+					}
+					if ob.err != nil || ob.bad != "" {
+						t.Fail(o.name+"/short-read@k/error", "%s: err=%v %s (short reads without error are legal for an io.Reader)", where, ob.err, ob.bad)
+						continue
+					}
+					if !bytes.Equal(ob.out, ff.out) || rd.Consumed != ff.end {
+						t.Fail(o.name+"/short-read@k/output-differs", "%s: output %s (consumed %d) differs from the fault-free output %s (consumed %d)", where, engine.Hex(ob.out), rd.Consumed, engine.Hex(ff.out), ff.end)
+					}
+				}
 			}
 		}
 	}
@@ -531,8 +605,17 @@ func withTails(b []byte) []byte { return concat(b, tails[0], tails[1], tails[2])
 // ---------------------------------------------------------------------------------------------
 
 func (Prop) Run(c *engine.Ctx) {
-	ops := allOps()
 	quick := c.Quick()
+	var ops []*opDef
+	for _, o := range allOps() {
+		// Go 1.23's crypto/elliptic P-256 exposes Inverse() on amd64 even with -tags purego, where nistec.P256OrdInverse is
+		// a stub that always fails: every SM2 signature over NIST P-256 panics inside the standard library in that build.
+		// That is a toolchain build-tag inconsistency unrelated to sampling; the operation is not run in c-purego.
+		if o.name == "sm2.sign.legacy-p256" && c.Config == "c-purego" {
+			continue
+		}
+		ops = append(ops, o)
+	}
 
 	// 1. content + fault enumeration, one case per (operation, first block)
 	for _, o := range ops {
@@ -546,7 +629,7 @@ func (Prop) Run(c *engine.Ctx) {
 				}
 				for _, s := range o.streamsFrom(first, mask, 3, false) {
 					lab := s.label()
-					full := withTails(s.bytes())
+					full := withTails(concat(o.pre, s.bytes()))
 					r := runSeq(t, []*opDef{o}, full, lab)
 					t.Nontrivial(o.name + "/" + lab)
 					if len(r) != 1 || !r[0].ok {
@@ -560,6 +643,9 @@ func (Prop) Run(c *engine.Ctx) {
 					}
 					// benign deviations cost a full run each: in the quick tier only for streams of <= 2 blocks
 					faults(t, o, full, lab, r[0], !quick || len(s.vals) <= 2)
+					if !quick && len(s.vals) <= 2 {
+						faults2(t, o, full, lab, r[0])
+					}
 					if t.Failed() {
 						return
 					}
@@ -571,6 +657,9 @@ func (Prop) Run(c *engine.Ctx) {
 	// 2. the same operation twice on one reader
 	for _, o := range ops {
 		o := o
+		if o.light {
+			continue
+		}
 		for _, first := range o.g.vals {
 			first := first
 			c.Case(fmt.Sprintf("seq/%s/first=%s", o.name, first.label), func(t *engine.T) {
@@ -585,7 +674,7 @@ func (Prop) Run(c *engine.Ctx) {
 				for _, s1 := range o.streamsFrom(first, mask, 2, false) {
 					for _, s2 := range second {
 						lab := s1.label() + " || " + s2.label()
-						runSeq(t, []*opDef{o, o}, withTails(concat(s1.bytes(), s2.bytes())), lab)
+						runSeq(t, []*opDef{o, o}, withTails(concat(o.pre, s1.bytes(), o.pre, s2.bytes())), lab)
 						t.Nontrivial(o.name + "/seq/" + lab)
 						if t.Failed() {
 							return
@@ -612,9 +701,9 @@ func (Prop) Run(c *engine.Ctx) {
 				// a block that a (resp. b) must reject: the value whose masked form is zero
 				rejA, rejB := xorBytes(make([]byte, 32), ma), xorBytes(make([]byte, 32), mb)
 				for variant, st := range [][]byte{
-					concat(midA, midB),
-					concat(rejA, midA, rejB, midB),
-					concat(midB, rejB, midA),
+					concat(a.pre, midA, b.pre, midB),
+					concat(a.pre, rejA, midA, b.pre, rejB, midB),
+					concat(a.pre, midB, b.pre, rejB, midA),
 				} {
 					lab := fmt.Sprintf("cross-variant-%d", variant)
 					runSeq(t, []*opDef{a, b}, withTails(st), lab)
